@@ -151,6 +151,20 @@ func c02Ops() []concOp {
 			vrt.GoNamed("producerOuter", func() { po.Next(0); po.Next(1); po.Complete() })
 			return s
 		}},
+		// operators that deliver a terminal from a goroutine of their own when the SUBSCRIPTION context ends:
+		// a canceller goroutine cancels it while the producers are delivering
+		{name: "ThrowOnContextCancel(cancelled while delivering)", build: func(a, b ro.Observable[int], set *recSet, out *h.Rec, place string) ro.Subscription {
+			ctx, cancel := context.WithCancel(ctxWith())
+			s := placeInt(ro.ThrowOnContextCancel[int]()(a), place).SubscribeWithContext(ctx, h.Observer[int](out))
+			vrt.GoNamed("canceller", func() { cancel() })
+			return s
+		}},
+		{name: "Map|ThrowOnContextCancel(cancelled while delivering)", build: func(a, b ro.Observable[int], set *recSet, out *h.Rec, place string) ro.Subscription {
+			ctx, cancel := context.WithCancel(ctxWith())
+			s := placeInt(ro.ThrowOnContextCancel[int]()(ro.Map(func(v int) int { return v })(a)), place).SubscribeWithContext(ctx, h.Observer[int](out))
+			vrt.GoNamed("canceller", func() { cancel() })
+			return s
+		}},
 		// a subscribe function that fails after it has started delivering from a goroutine of its own: the
 		// Error the library makes of the panic must go through the same serialisation as the values
 		{name: "NewObservable(starts a producer, then panics)", build: func(a, b ro.Observable[int], set *recSet, out *h.Rec, place string) ro.Subscription {
